@@ -29,8 +29,8 @@ TRUSTED = ["sqlite's atomic commit (fresh connection after the kill sees exactly
 ASSUMPTIONS = ["the task writes result.txt and one line on stdout, then exits", "line granularity of kill points; tee threads die with the process"]
 
 HASH = "cd" * 20
-ARGS = ([], [1, "two", 2.5, True])
-OPTS = ({}, {"k": "v", "n": 3})
+ARGS = ([], [1, "two", 2.5, True], list(range(300)) + ["x" * 5000])
+OPTS = ({}, {"k": "v", "n": 3}, {"key%03d" % i: i * 0.5 for i in range(200)})
 GIT = ("none", "clean", "dirty")
 ANCHORED = ("execution/ops/run_task_executable.py", "execution/version_index.py", "utils/run_arguments.py", "utils/run_options.py",
             "utils/output_handler.py", "cli/restore.py", "cli/archive.py", "cli/gc.py")
@@ -106,8 +106,8 @@ def check_rows(g, proj, args, opts, D, ok_fn=None, git=None):
 
 def symbolic_fn(g):
     import conductor.cli.run as cli_run
-    args = ARGS[g.choose("args", 2)]
-    opts = OPTS[g.choose("opts", 2)]
+    args = ARGS[g.choose("args", 3)]
+    opts = OPTS[g.choose("opts", 3)]
     git = GIT[g.choose("git", 3)]
     proj = project(args, opts, git)
     try:
